@@ -277,7 +277,8 @@ func C15(c *core.Ctx) {
 	}
 	docs = append(docs, docCase{"empty", &document.DocumentEx{}})
 
-	subst := core.Pick(c, []byte{0x01, 0x80, 0xFF}, []byte{0x01, 0x02, 0x04, 0x08, 0x10, 0x20, 0x40, 0x80, 0xFF, 0x55})
+	// XOR masks; 01 and 03 turn a version number 1 into 0 and 2, 2 into 3 and 1
+	subst := core.Pick(c, []byte{0x01, 0x03, 0x80, 0xFF}, []byte{0x01, 0x02, 0x03, 0x04, 0x08, 0x10, 0x20, 0x40, 0x80, 0xFF, 0x55})
 	classCount := map[string]int{}
 	acceptedSame := map[string]int{}
 	for _, dc := range docs {
@@ -381,6 +382,41 @@ func C15(c *core.Ctx) {
 				if exp, ok := expect[cls[i]]; ok && exp == "reject" && (cls[i] == "outer/magic" || cls[i] == "outer/version-up" || cls[i] == "doc/magic" || cls[i] == "evidence/magic") {
 					c.Violation("C15:foreign-magic-or-newer-version-accepted", fmt.Sprintf("%s: class %s accepted", dc.name, cls[i]), rp)
 				}
+			}
+		}
+	}
+	// exports do not share state: every document is exported (twice around), and only then is each blob imported -
+	// it must still be its own document (an export that hands out recycled memory passes every single round trip)
+	{
+		var blobs [][]byte
+		var owners []int
+		for round := 0; round < 2; round++ {
+			for i, dc := range docs {
+				b, err := dc.dex.ToCbor()
+				if err != nil {
+					continue
+				}
+				blobs = append(blobs, b)
+				owners = append(owners, i)
+			}
+		}
+		for k, b := range blobs {
+			dc := docs[owners[k]]
+			c.Case(fmt.Sprintf("export-sequence/%d/%s", k, dc.name), true)
+			got, err := importBlob(b)
+			bundle := &document.ChipAuthEvidenceBundle{}
+			s := dc.dex.Session
+			if s.PaceCamResult != nil {
+				bundle.PaceCam = s.PaceCamResult.Evidence
+			}
+			if s.ChipAuthResult != nil {
+				bundle.ChipAuth = s.ChipAuthResult.Evidence
+			}
+			if s.ActiveAuthResult != nil {
+				bundle.ActiveAuth = s.ActiveAuthResult.Evidence
+			}
+			if err != nil || !reflect.DeepEqual(contentOf(&dc.dex.Document, bundle), got) {
+				c.Violation("C15:export-sequence", fmt.Sprintf("after exporting several documents, the blob of %s (export %d of %d) no longer imports to that document: %v", dc.name, k+1, len(blobs), err), map[string]any{"doc": dc.name})
 			}
 		}
 	}
